@@ -707,8 +707,16 @@ main (int argc, char **argv)
 	  os << "]}";
 	  g_rec = os.str ();
 	}
-      // Leaks are attributed to the command that caused them.
-      int leaked = VERIF_LEAK_CHECK ();
+      // Leaks: checked every LEAK_EVERY commands (the check stops the world and is slow);
+      // the caller re-runs the commands of a flagged window one by one.
+      static int leak_every = getenv ("ZWDRV_LEAK_EVERY") ? atoi (getenv ("ZWDRV_LEAK_EVERY")) : 1;
+      static int since = 0;
+      int leaked = 0;
+      if (++since >= leak_every)
+	{
+	  since = 0;
+	  leaked = VERIF_LEAK_CHECK ();
+	}
       if (! g_rec.empty ())
 	{
 	  if (leaked && g_rec.back () == '}')
